@@ -56,7 +56,8 @@ const idOpt4 = 224
 
 func newAPI4(s *Sim, conn net.PacketConn) *api4 {
 	nclient4.VerifHook = s.hook
-	dest := &net.UDPAddr{IP: net.IPv4(10, 9, 8, 7), Port: 6767}
+	dest := []*net.UDPAddr{{IP: net.IPv4(10, 9, 8, 7), Port: 6767}, {IP: net.IPv4bcast, Port: 67}, {IP: net.IPv4(10, 0, 0, 1).To4(), Port: 67},
+		{IP: net.IPv4(192, 168, 1, 255), Port: 67}}[s.cfg.Dest%4]
 	opts := []nclient4.ClientOpt{nclient4.WithTimeout(time.Duration(s.cfg.T) * unit), nclient4.WithRetry(s.cfg.Tries)}
 	switch s.cfg.Log {
 	case 1:
@@ -206,7 +207,9 @@ const idOpt6 = 65001
 
 func newAPI6(s *Sim, conn net.PacketConn) *api6 {
 	nclient6.VerifHook = s.hook
-	dest := &net.UDPAddr{IP: net.ParseIP("fe80::9"), Port: 5547}
+	// the requested destination is the whole address: a link-local or multicast address means nothing without its zone
+	dest := []*net.UDPAddr{{IP: net.ParseIP("fe80::9"), Port: 5547}, {IP: net.ParseIP("fe80::1"), Port: 547, Zone: "eth7"},
+		{IP: net.ParseIP("ff02::1:2"), Port: 547, Zone: "eth7"}, {IP: net.ParseIP("2001:db8::5"), Port: 547}}[s.cfg.Dest%4]
 	opts := []nclient6.ClientOpt{nclient6.WithTimeout(time.Duration(s.cfg.T) * unit), nclient6.WithRetry(s.cfg.Tries)}
 	switch s.cfg.Log {
 	case 1:
